@@ -17,6 +17,8 @@ t=open(f"{V}/lib/seed-prompt.txt").read().replace("__WT__",f"/tmp/wt-{id}").repl
 prev=sorted(os.path.basename(d) for d in glob.glob(f"{V}/seeded/{id}-*"))
 if prev:
     t+="\n\nEARLIER SEEDED CHANGES FOR THIS PROPERTY (yours must be in a DIFFERENT function or mechanism; the names describe them):\n"+"\n".join("  - "+p for p in prev)+"\n"
+if os.path.exists("/tmp/seed-steer.txt"):
+    t+="\n"+open("/tmp/seed-steer.txt").read()
 open(f"/tmp/seed-prompt-{id}.txt","w").write(t)
 P
 echo "prepared /tmp/wt-$id and /tmp/seed-prompt-$id.txt"
